@@ -27,6 +27,10 @@ pub enum Op {
     Inc { k: String, n: i32 },
     Remove { k: String },
     Snapshot { reclaim: bool },
+    /// `resolve 7 d <key> <version> <value>` from the client (the database has no conflict strategy and no arbiter); with
+    /// record_first the client has written a key that looks like a conflict record of that key (`$conflicts_<key>_1`)
+    /// before. It may be refused (and then changes nothing) or be a mutation like the others
+    Resolve { k: String, ver: V, v: String, record_first: bool },
 }
 
 #[derive(Clone, Debug, Serialize, Deserialize)]
@@ -45,8 +49,9 @@ fn op_strategy() -> impl Strategy<Value = Op> {
         3 => (k.clone(), v.clone()).prop_map(|(k, v)| Op::Set { k, v }),
         6 => (k.clone(), ver, v).prop_map(|(k, ver, v)| Op::SetSafe { k, ver, v }),
         2 => (k.clone(), select(vec![1, -1, 5])).prop_map(|(k, n)| Op::Inc { k, n }),
-        2 => k.prop_map(|k| Op::Remove { k }),
+        2 => k.clone().prop_map(|k| Op::Remove { k }),
         1 => any::<bool>().prop_map(|reclaim| Op::Snapshot { reclaim }),
+        1 => (k, select(vec![0, 1, -1, 3]).prop_map(V::Rel), select(vec!["x", "5"]).prop_map(|s| s.to_string()), any::<bool>()).prop_map(|(k, ver, v, record_first)| Op::Resolve { k, ver, v, record_first }),
     ]
 }
 
@@ -80,7 +85,7 @@ pub fn run_seq(ctx: &Ctx, case: &Case) -> Outcome {
     let mut near = false;
     for (i, op) in case.ops.iter().enumerate() {
         let key = match op {
-            Op::Set { k, .. } | Op::SetSafe { k, .. } | Op::Inc { k, .. } | Op::Remove { k } => k.clone(),
+            Op::Set { k, .. } | Op::SetSafe { k, .. } | Op::Inc { k, .. } | Op::Remove { k } | Op::Resolve { k, .. } => k.clone(),
             Op::Snapshot { reclaim } => {
                 admin.send(&node, &format!("snapshot {}", reclaim));
                 node.pump();
@@ -163,6 +168,27 @@ pub fn run_seq(ctx: &Ctx, case: &Case) -> Outcome {
                     break;
                 }
             }
+            Op::Resolve { k, ver, v, record_first } => {
+                if *record_first {
+                    s.send(&node, &format!("set $conflicts_{}_1 resolve 1 d 0 {} old new", k, k));
+                    node.pump();
+                }
+                let base = match ver {
+                    V::Abs(n) => *n,
+                    V::Rel(d) => ver_before.saturating_add(*d),
+                };
+                let (r, _) = s.send(&node, &format!("resolve 7 d {} {} {}", k, base, v));
+                node.pump();
+                let ok = !is_refusal(&r);
+                if !ok {
+                    let after = node.dump().remove("d").unwrap_or_default().get(&key).cloned();
+                    if after != before_dump {
+                        fail = Some(("C02|refused-resolve-changed-key".to_string(), format!("step {}: refused resolve 7 d {} {} changed the key {:?} -> {:?}", i, k, base, before_dump, after)));
+                        break;
+                    }
+                }
+                mutated_ok = ok;
+            }
             Op::Remove { k } => {
                 s.send(&node, &format!("remove {}", k));
                 node.pump();
@@ -182,6 +208,7 @@ pub fn run_seq(ctx: &Ctx, case: &Case) -> Outcome {
                     let opn = match op {
                         Op::Set { .. } => "set",
                         Op::SetSafe { .. } => "set-safe",
+                        Op::Resolve { .. } => "resolve",
                         _ => "increment",
                     };
                     fail = Some((format!("C02|version-did-not-grow|{}", opn), format!("step {} {:?}: version {} after a successful mutation, the key has had version {} since it came into existence", i, op, ver_after, m)));
@@ -734,7 +761,7 @@ pub fn run_tcp(w: &TcpWorld, case: &Case) -> Outcome {
             }
             Op::Inc { k, n } => (k.clone(), Box::new({ let n = *n; move |key: &str, _cur: i32| format!("increment {} {}", key, n) }) as Box<dyn Fn(&str, i32) -> String>),
             Op::Remove { k } => (k.clone(), Box::new(|key: &str, _cur: i32| format!("remove {}", key)) as Box<dyn Fn(&str, i32) -> String>),
-            Op::Snapshot { .. } => continue,
+            Op::Snapshot { .. } | Op::Resolve { .. } => continue,
         };
         let (key_tcp, key_twin) = (format!("{}w{}", k0, n), format!("{}t{}", k0, n));
         let (_v, cur) = get_safe(&mut twin, node, &key_twin);
